@@ -167,6 +167,10 @@ def run(c):
     replay(c, sim.behaviours, 'simulate')
     concurrent_leg(c, CONCURRENT_SCRIPTS[:2], 2 if quick else 3, 400 if quick else 6000)
     timer_survives(c)
+    # end to end: a real gRPC server, the real deep.start(), hits and shutdown, judged by the composition DeepAgent
+    import random
+    from .. import e2e_leg
+    e2e_leg.e2e_leg(c, random.Random(c.seed + 21), 8 if quick else 120)
 
 
 if __name__ == '__main__':
